@@ -33,7 +33,9 @@ class Case:
         import base64
         return {"model_b64": base64.b64encode(self.mb).decode(), "cmds": self.cmds, "recipe": self.recipe, "late": self.late,
                 "data": {k: [{a: v.tolist() for a, v in smp.items()} for smp in v_] for k, v_ in (self.data or {}).items()},
-                "ops": [sg["ops"] for sg in self.info["subgraphs"]]}
+                "ops": [sg["ops"] for sg in self.info["subgraphs"]],
+                "dry_run_calibration_first": None if getattr(self, "dry_data", None) is None else
+                {k: [{a: v.tolist() for a, v in smp.items()} for smp in v_] for k, v_ in self.dry_data.items()}}
 
 
 def gen_fanout_case(rng, n_samples=1):
@@ -79,6 +81,8 @@ def gen_case(rng, i, multi_every=6, share_every=4, shipped_every=3, n_samples=1,
             late = [{"k": "quantize"}, {"k": "add", "regex": ".*", "operation": rng.choice(ops), "cfg": None, "alg": "no_quantize"}]
     elif r < 0.11:
         late = [{"k": "policy", "file": "example_config_policy.json"}]   # a shipped custom policy replaces the default one
+        if rng.random() < 0.5:
+            late = [{"k": "quantize"}] + late    # ... after the object has already resolved its rules once under the default policy
     elif r < 0.19:
         # calibrate once, then explore recipes with the same calibration result: the weight granularity (and width) configured when
         # quantize() runs differs from the one in force while calibrating
@@ -86,8 +90,12 @@ def gen_case(rng, i, multi_every=6, share_every=4, shipped_every=3, n_samples=1,
         pool = ["a8sw8t", "a8sw4t"] if "CHANNELWISE" in grans else (["a8w8", "a8w4", "a16w8"] if grans else ["a8sw8t", "a8w8", "a8sw4t", "a8w4", "a16w8"])
         late = [{"k": "add", "regex": ".*", "operation": rng.choice(["*", "*", "FULLY_CONNECTED", "CONV_2D", "DEPTHWISE_CONV_2D"]),
                  "cfg": pl.UNIFORM[rng.choice(pool)], "alg": "min_max_uniform_quantize"}]
-    return Case(mb, info, cmds=cmds, data=data, late=late,
+    case = Case(mb, info, cmds=cmds, data=data, late=late,
                 desc=[(c["regex"], c["operation"], c["alg"]) for c in cmds] + ([("late", c.get("k"), c.get("operation") or c.get("file")) for c in late] if late else []))
+    if rng.random() < 0.08:
+        case.dry_data = gm.random_inputs(mb, rng, n=1, scale=rng.choice([0.05, 8.0]))
+        info["tags"].add("dry_run_calibration_first")
+    return case
 
 
 def make_quantizer(case):
@@ -108,6 +116,13 @@ def run_case(ctx, drv, case, graph_corr=True):
     if not q.get_quantization_recipe():
         return res
     try:
+        if q.need_calibration and getattr(case, "dry_data", None):
+            # an earlier, independent calibration session on the same object (a dry run on other data): the session that counts
+            # starts from scratch (previous_calibration_result=None) and must not see it
+            try:
+                pl.calibrate_all(q, case.dry_data)
+            except Exception:  # noqa: BLE001
+                pass
         cr = pl.calibrate_all(q, case.data) if q.need_calibration else None
     except Exception as e:  # noqa: BLE001
         return {"status": "raise", "exc": type(e).__name__, "stage": "calibrate", "q": q}
@@ -297,7 +312,7 @@ def failer(ctx, case, prefix=""):
     return fail
 
 
-def gen_tied_case(rng, i):
+def gen_tied_case(rng, i, nsg=None):
     """tied-constant models x recipes assigning equal / different / no quantization to the sharers"""
     if i % 6 == 5:
         # only scalar constants are tied; the rules cover one operator type at a time (so that only one sharer is requested)
@@ -310,7 +325,7 @@ def gen_tied_case(rng, i):
         cmds = [{"k": "add", "regex": ".*", "operation": op, "cfg": pl.UNIFORM[rng.choice(["a8w8", "a8sw8t", "a16w8"])],
                  "alg": "min_max_uniform_quantize"} for op in rng.sample(kinds, rng.randint(1, len(kinds)))]
         return Case(mb, info, cmds=cmds, data=data, desc=[(c["regex"], c["operation"], c["alg"]) for c in cmds])
-    mb, info = gm.gen_tied(rng)
+    mb, info = gm.gen_tied(rng, nsg=nsg)
     data = gm.random_inputs(mb, rng, n=1)
     names = [n for sc in pl.scopes_of(mb) for n in sc.split(";") if n]
     r = rng.random()
